@@ -42,7 +42,7 @@ def emitted_datagram_part(r, tier, seed):
     core.build_harness()
     n = 1 if tier == "quick" else 8
     scripts = (props.fam_xfer(seed, 10 * n) + props.fam_many(seed, 10 * n) + props.fam_hostile(seed, 8 * n)
-               + props.fam_close(seed, 10 * n) + props.fam_backlog(seed, 2 * n))
+               + props.fam_close(seed, 10 * n) + props.fam_backlog(seed, 8 * n) + props.fam_sockpeer(seed, 4 * n))
     r.add_validated(core.run_and_validate("C11emit", scripts), rules_prefix=["C11."])
 
 # ------------------------------------------------------------------ plumbing
